@@ -45,12 +45,14 @@ func NewOrderedPartition(n, m int, vertexClasses [][]int) *CanonicalOrderedParti
 		binDividers = binDividers[:len(vertexClasses)]
 		index := 0
 		for i := range vertexClasses {
+			binStart := index
 			for j := range vertexClasses[i] {
 				v := vertexClasses[i][j]
 				order[index] = v
-				inCell[v] = j
+				inCell[v] = i
 				index++
 			}
+			ints.Sort(order[binStart:index])
 			binDividers[i] = index
 		}
 	}
@@ -59,8 +61,10 @@ func NewOrderedPartition(n, m int, vertexClasses [][]int) *CanonicalOrderedParti
 	for i := range binAges {
 		binAges[i] = 0
 	}
-	binsToCheck := make([]int, 1, n)
-	binsToCheck[0] = 0
+	binsToCheck := make([]int, len(binDividers), n)
+	for i := range binsToCheck {
+		binsToCheck[i] = i
+	}
 	value := make([]int, 0, m)
 	return &CanonicalOrderedPartition{order: order, binDividers: binDividers, binAges: binAges, binsToCheck: binsToCheck, value: value, inCell: inCell}
 }
@@ -95,12 +99,14 @@ func (op *CanonicalOrderedPartition) Reset(n, m int, vertexClasses [][]int) {
 		op.binDividers = op.binDividers[:len(vertexClasses)]
 		index := 0
 		for i := range vertexClasses {
+			binStart := index
 			for j := range vertexClasses[i] {
 				v := vertexClasses[i][j]
 				op.order[index] = v
-				op.inCell[v] = j
+				op.inCell[v] = i
 				index++
 			}
+			ints.Sort(op.order[binStart:index])
 			op.binDividers[i] = index
 		}
 	}
@@ -111,8 +117,10 @@ func (op *CanonicalOrderedPartition) Reset(n, m int, vertexClasses [][]int) {
 	}
 
 	if n > 0 {
-		op.binsToCheck = op.binsToCheck[:1]
-		op.binsToCheck[0] = 0
+		op.binsToCheck = op.binsToCheck[:len(op.binDividers)]
+		for i := range op.binsToCheck {
+			op.binsToCheck[i] = i
+		}
 	}
 
 	op.value = op.value[:0]
@@ -513,8 +521,8 @@ func CanonicalIsomorphAllocated(n, m int, neighbours [][]int, op *CanonicalOrder
 	currentBest := storage.currentBest[:0]
 
 	//Handle the special case where m = 0.
-	//TODO: Check if this is necessary.
-	if m == 0 {
+	//With more than one vertex class the general search below is used.
+	if m == 0 && len(op.binDividers) == 1 {
 		//Return the identity permutation.
 		perm := storage.currentBestPerm[:n]
 		for i := 0; i < n; i++ {
@@ -587,6 +595,9 @@ func CanonicalIsomorphAllocated(n, m int, neighbours [][]int, op *CanonicalOrder
 
 	skipDeage := false
 
+	//Vertex classes which are singletons are already part of the value.
+	op.expandValue(neighbours, currentBest, firstLeaf)
+
 	//Split the partition.
 	//We split here and at the end of the loop so we can easily handle the CheckViable option. It wouldn't be hard to check it the other way but might require a
 	worse := equitableRefinementProcedure(neighbours, op, dws, nbs, space, timesSeen, maxCell, numberOfMax, currentBest, firstLeaf, options)
@@ -601,7 +612,7 @@ func CanonicalIsomorphAllocated(n, m int, neighbours [][]int, op *CanonicalOrder
 		if !worse && len(op.binDividers) == n {
 			count++
 			//Are we the new best?
-			if comp := ints.Compare(op.value, currentBest); comp == 1 {
+			if comp := ints.Compare(op.value, currentBest); comp == 1 || count == 1 {
 				currentBest = currentBest[:m]
 				copy(currentBest, op.value)
 				copy(currentBestPath, path)
